@@ -12,8 +12,8 @@ use crate::rig::*;
 use scpi::parser::tokenizer::{Token, Tokenizer};
 use serde_json::{json, Value};
 
-pub const SIGMA_LEX: &[u8] = b"AEH109 :;,?*#\"'().+-/_@!\n\t\x00\x80";
-pub const SIGMA_DATA: &[u8] = b"AEH109 ;,#\"'().+-/_@!\n\t\x00\x80";
+pub const SIGMA_LEX: &[u8] = b"AEH109 :;,?*#\"'().+-/_@!\n\t\r\x0c\x00\x80";
+pub const SIGMA_DATA: &[u8] = b"AEH109 ;,#\"'().+-/_@!\n\t\r\x0c\x00\x80";
 
 /// Universal tree: A, E, H at the root, each a branch with an anonymous default leaf and children
 /// A, E, H; common commands *A, *E, *H. Every handler pulls up to 8 optional parameters.
@@ -284,8 +284,8 @@ pub fn judge(s: &[u8], env: &mut Env, st: &mut Stats) -> Option<(String, String)
                 st.outcomes.insert(h);
             }
             if let Some(e) = terr {
-                let key = if s.first().map_or(false, |c| *c == b' ' || *c == b'\t') && {
-                    let t = &s[s.iter().position(|c| *c != b' ' && *c != b'\t').unwrap_or(s.len())..];
+                let key = if s.first().map_or(false, |c| c.is_ascii_whitespace()) && {
+                    let t = &s[s.iter().position(|c| !c.is_ascii_whitespace()).unwrap_or(s.len())..];
                     impl_tokens(t).1.is_none()
                 } {
                     "wellformed-rejected-leading-whitespace".to_string()
@@ -309,7 +309,7 @@ pub fn judge(s: &[u8], env: &mut Env, st: &mut Stats) -> Option<(String, String)
                 match r {
                     Err(_) => {} // panics are C01's verdict
                     Ok(Err(e)) => {
-                        let key = if s.first().map_or(false, |c| *c == b' ' || *c == b'\t') {
+                        let key = if s.first().map_or(false, |c| c.is_ascii_whitespace()) {
                             "wellformed-rejected-leading-whitespace"
                         } else {
                             "wellformed-rejected-by-run"
@@ -601,6 +601,59 @@ pub fn corruptions(m: &[u8]) -> Vec<Vec<u8>> {
     out
 }
 
+/// Directed family: elements whose length crosses 12/13 and the counter boundaries 255/256/257,
+/// 268/269 (256+12/13), 511/512, 65535/65536/65549.
+pub fn long_elements() -> Vec<Vec<u8>> {
+    let lens: &[usize] = &[11, 12, 13, 14, 20, 64, 127, 128, 129, 200, 254, 255, 256, 257, 258, 267, 268, 269, 270, 300, 511, 512, 513, 524, 525, 1000, 4096, 65535, 65536, 65537, 65548, 65549];
+    let mut out = vec![];
+    for &l in lens {
+        let ident: Vec<u8> = (0..l).map(|i| if i % 7 == 3 { b'_' } else if i % 5 == 4 { b'1' } else { b'A' + (i % 26) as u8 }).collect();
+        let mut ident = ident;
+        ident[0] = b'A';
+        let digits: Vec<u8> = (0..l).map(|i| b'0' + ((i * 7 + 1) % 10) as u8).collect();
+        let sfx: Vec<u8> = (0..l).map(|i| if i % 9 == 8 { b'/' } else { b'V' }).collect();
+        let s = |parts: &[&[u8]]| -> Vec<u8> { parts.concat() };
+        out.push(s(&[&ident]));                                   // mnemonic
+        out.push(s(&[b"A:", &ident, b"?"]));
+        out.push(s(&[b"*", &ident]));
+        out.push(s(&[b"A ", &ident]));                            // character data
+        out.push(s(&[b"A 1,", &ident, b";E"]));
+        out.push(s(&[b"A 1", &sfx]));                             // suffix
+        out.push(s(&[b"A 1 ", &sfx, b",2"]));
+        out.push(s(&[b"A ", &digits]));                           // long numbers
+        out.push(s(&[b"A .", &digits, b"E-", &digits[..3.min(l)]]));
+        out.push(s(&[b"A #H", &digits]));
+        out.push(s(&[b"A \"", &ident, b"\",1"]));                // long string / expression are fine
+        out.push(s(&[b"A (", &digits, b")"]));
+        if l <= 999 {
+            let hdr = format!("#3{:03}", l);
+            out.push(s(&[b"A ", hdr.as_bytes(), &ident, b",1"])); // block with exact length
+            out.push(s(&[b"A ", hdr.as_bytes(), &ident[..l - 1]])); // one byte short
+        }
+    }
+    out
+}
+
+/// Directed family: every byte value 0..=255 substituted at every position of a set of well-formed
+/// messages (class-representative alphabets cannot see a mis-drawn class boundary such as 0x60).
+pub fn byte_substitutions() -> Vec<Vec<u8>> {
+    let bases: &[&[u8]] = &[b"A:E? ABC,1", b"*A AB1_C", b"E:H 1.5E3 MV,#HFF", b"A \"ab\",'cd'", b"A (1,2:3)", b"A #13abc,X", b"H:E;A 12", b":A:E 1 V/S;*E?"];
+    let mut out = vec![];
+    for b in bases {
+        for i in 0..b.len() {
+            for v in 0..=255u8 {
+                if b[i] == v {
+                    continue;
+                }
+                let mut x = b.to_vec();
+                x[i] = v;
+                out.push(x);
+            }
+        }
+    }
+    out
+}
+
 pub fn samples_for(msgs: &[&[u8]]) -> Vec<Value> {
     msgs.iter()
         .map(|m| {
@@ -722,10 +775,39 @@ pub fn run(ctx: &'static Ctx) -> i32 {
         ncorr += c;
     }
 
+    // (e) directed families beyond the length bound: long elements and all byte values
+    let mut directed: Vec<Vec<u8>> = long_elements();
+    let n_long = directed.len();
+    directed.extend(byte_substitutions());
+    let n_dir = directed.len() as u64;
+    let accs = par_sweep(
+        ctx,
+        n_dir,
+        SweepOpts {
+            name: "C04 (e) directed long / all-bytes",
+            chunk: 64,
+            hang_secs: 30,
+        },
+        || (Env::new(shared), Stats::default()),
+        |idx, (env, st): &mut (Env, Stats)| {
+            let d = &directed[idx as usize];
+            if let Some((key, what)) = judge(d, env, st) {
+                let what = trunc(&what, 600).to_string();
+                ctx.violation(total_a + total_d + nders * 1000 + idx, &format!("directed-{key}"), &what, json!({"kind": "input", "input": esc(d)}));
+            }
+        },
+        |idx| json!({"kind": "input", "input": esc(&directed[idx as usize])}),
+    );
+    for (_, s) in accs {
+        stats.merge(s);
+    }
+
     let mut c = cov();
     c.insert("evaluations".into(), json!(stats.evals));
+    c.insert("directed_long_element_inputs".into(), json!(n_long));
+    c.insert("directed_byte_substitution_inputs".into(), json!(n_dir as usize - n_long));
     c.insert("distinct_nontrivial".into(), json!(stats.accepted_multi + stats.rejected_listed));
-    c.insert("rule".into(), json!(format!("(a) all {a_evals} strings of length <= {n} over one byte per lexical class ({} symbols: letters incl. E/H, digits 1/0/9, SP, `:;,?*#\"'().+-/_@!`, NL, TAB, NUL, 0x80); (d) {d_evals} contextual strings = {} prefixes that place each data reader at offset 0 x every continuation of length <= {m} over the data alphabet; (b) {nders} grammar derivations (headers simple/compound/common, command/query, 0..2 data elements from {} representatives of all seven data types incl. separators inside strings/blocks/expressions, 5 white-space placements, 3 terminator forms, 2-unit messages, indefinite blocks) and (c) {ncorr} single-point corruptions (lengthen mnemonic/character data/suffix to 13, drop a closing quote, truncate a block, non-digit in a block length, remove NL of #0 block, 0x80 at every non-block position, extra `:` or `,` at every position, delete a data separator). Each input is classified by the three-valued reference lex488: accepted => Tokenizer stream must equal the 488.2 decomposition element by element and byte range by byte range, and (if every header exists in the universal tree) Node::run must succeed with handlers seeing exactly those data elements; listed violation => the tokenizer (lexical classes) or Node::run (structural classes) must refuse with an error in -100..-199; otherwise no verdict. Distinct non-trivial = accepted inputs with >= 2 elements + inputs in a listed violation class", SIGMA_LEX.len(), prefixes.len(), DATA_ELEMS.len())));
+    c.insert("rule".into(), json!(format!("(a) all {a_evals} strings of length <= {n} over one byte per lexical class ({} symbols: letters incl. E/H, digits 1/0/9, SP, `:;,?*#\"'().+-/_@!`, NL, TAB, CR, FF, NUL, 0x80); (d) {d_evals} contextual strings = {} prefixes that place each data reader at offset 0 x every continuation of length <= {m} over the data alphabet; (b) {nders} grammar derivations (headers simple/compound/common, command/query, 0..2 data elements from {} representatives of all seven data types incl. separators inside strings/blocks/expressions, 5 white-space placements, 3 terminator forms, 2-unit messages, indefinite blocks) and (c) {ncorr} single-point corruptions (lengthen mnemonic/character data/suffix to 13, drop a closing quote, truncate a block, non-digit in a block length, remove NL of #0 block, 0x80 at every non-block position, extra `:` or `,` at every position, delete a data separator); (e) directed families beyond the length bound: mnemonics, character data, suffixes, numbers, strings, expressions and blocks of 32 lengths from 11 to 65549 (crossing 12/13, 255/256, 268/269, 511/512, 65535/65536), and every byte value 0..255 substituted at every position of 8 well-formed messages. Each input is classified by the three-valued reference lex488: accepted => Tokenizer stream must equal the 488.2 decomposition element by element and byte range by byte range, and (if every header exists in the universal tree) Node::run must succeed with handlers seeing exactly those data elements; listed violation => the tokenizer (lexical classes) or Node::run (structural classes) must refuse with an error in -100..-199; otherwise no verdict. Distinct non-trivial = accepted inputs with >= 2 elements + inputs in a listed violation class", SIGMA_LEX.len(), prefixes.len(), DATA_ELEMS.len())));
     c.insert("exhaustive".into(), json!(true));
     c.insert("accepted_wellformed".into(), json!(stats.accepted));
     c.insert("wellformed_checked_end_to_end".into(), json!(stats.run_checked));
@@ -747,7 +829,7 @@ pub fn run(ctx: &'static Ctx) -> i32 {
         "exploration",
         c,
         vec![
-            "white space representatives are SP and TAB; other control bytes, NL before the end, white space around an exponent `E`, signs in non-decimal literals, `;;`, expression content `# ( \" ' ;` are outside what the property pins (no verdict)".into(),
+            "white space representatives are SP, TAB, CR and FF; other control bytes, NL before the end, white space around an exponent `E`, signs in non-decimal literals, `;;`, expression content `# ( \" ' ;` are outside what the property pins (no verdict)".into(),
             "a header-separator element not followed by data is ignored on both sides (488.2 has no such element)".into(),
             "the reference recogniser refmodel/lex488.rs is self-checked on a table of accept / reject / unspecified cases before use".into(),
         ],
